@@ -85,9 +85,9 @@ type c45Group struct {
 }
 
 type c45Step struct {
-	Dt     int64 // ms
-	Base   []int // per base series: -1 absent, otherwise the value
-	Reload int   // -1: none; otherwise index into Configs, loaded before this step's evaluations
+	Dt     int64    // ms
+	Base   []int    // per base series: -1 absent, otherwise the value
+	Reload int      // -1: none; otherwise index into Configs, loaded before this step's evaluations
 	Skip   []string `json:",omitempty"` // groups not evaluated in this step (a missed iteration)
 }
 
